@@ -1,11 +1,14 @@
 import Driver.Util
 import Driver.Packed
+import Driver.Gen
 /-! `modeld`: one operation per line on stdin, one canonical result per line on stdout. -/
 open Driver
 
 def dispatch (line : String) : String :=
   match tokens line with
   | "packed" :: rest => Driver.Packed.run rest
+  | "gen" :: rest => Driver.Gen.run rest
+  | ["case", _] => "case"
   | _ => "bad-op"
 
 partial def loop (h : IO.FS.Stream) (out : IO.FS.Stream) : IO Unit := do
